@@ -16,7 +16,9 @@ RULE = ("complete enumeration of audience structures up to 2 restrictions x 2 au
         "strings; every case is a Response signed by the IdP key and run through parse_authn_request_response. "
         "non-trivial = distinct (restriction shape class, dest class, recipient class, conv, binding, config) on which "
         "at least one addressing check is exercised with a non-default value")
-TRUSTED = ["xmlsec1 stand-in (harness/standin/xmlsec1.py)", "renderer harness/render.py", "abstraction in harness/c04.py"]
+TRUSTED = ["source-to-Gallina translator harness/py2coq.py + value universe coq/theories/Base/Py.v (for_me is re-translated "
+           "from the source text on every run; c04_source_for_me proves it equal to the model)",
+           "xmlsec1 stand-in (harness/standin/xmlsec1.py)", "renderer harness/render.py", "abstraction in harness/c04.py"]
 ASSUMPTIONS = ["whitespace padding uses ASCII whitespace only (model's strip is the ASCII part of str.strip)",
                "everything else about the Response is valid (status, times, signature, InResponseTo)"]
 
@@ -32,6 +34,14 @@ CONFIGS = {
     "postonly": [(world.SP_ACS_POST, POST)],
     "redironly": [(world.SP_ACS_REDIRECT, REDIRECT)],
 }
+
+
+def regenerate_tables(ctx):
+    """Translator: response.for_me as it reads NOW -> coq/gen/C04Src.v; C04/Source.v proves it equal to the model."""
+    import os
+    from harness import common, py2coq
+    return py2coq.regenerate(os.path.join(common.GEN, "C04Src.v"), [
+        (os.path.join(env.SRC, "saml2", "response.py"), "for_me", {"name": "src_for_me", "params": ["conditions", "myself"]})])
 
 
 def aud_alphabet(rng=None):
